@@ -3,8 +3,9 @@
 (build ok, repo test suite ok, demo fails with / passes without), run the property's check against it (tools/seedtest.sh),
 store it under seeded/<id>-<i>/ with the result. Prints one line per change."""
 import json, os, subprocess, sys, shutil, glob
-pid = sys.argv[1]; tier = sys.argv[2] if len(sys.argv) > 2 else 'quick'
-src = '/tmp/mut-%s/out' % pid.lower()
+pid = sys.argv[1]; tier = 'quick'
+tag = sys.argv[2] if len(sys.argv) > 2 else ''
+src = '/tmp/mut%s-%s/out' % (tag, pid.lower())
 env = dict(os.environ, GOFLAGS='-mod=mod', GOPROXY='off', GOSUMDB='off', GOTOOLCHAIN='local')
 wt = '/tmp/confirmwt-' + pid
 def sh(cmd, cwd=None, timeout=1800):
@@ -50,7 +51,7 @@ for d in sorted(glob.glob(src + '/[0-9]*')):
     verdict = [l for l in out.split('\n') if l.startswith('VIOLATION') or l.startswith('OK ')]
     print('%s-%s confirmed=%s (clean=%s build=%s mutant=%s suite=%s) check=%s %s' % (pid, i, confirmed, clean_rc, build_rc, mut_rc, suite_rc, 'CAUGHT' if caught else 'MISSED', (verdict[-1][:120] if verdict else out[-200:])), flush=True)
     if confirmed:
-        dst = '/verif/seeded/%s-%s' % (pid, i)
+        dst = '/verif/seeded/%s-%s%s' % (pid, ('r' + tag + '-') if tag else '', i)
         os.makedirs(dst, exist_ok=True)
         shutil.copy(d + '/patch.diff', dst)
         for f in os.listdir(d):
